@@ -11,6 +11,8 @@ PropVerdict(r) ==
   IF r.kind = "c01" /\ ~InDomain(r.dt, r.fl) THEN "skip"
   ELSE IF r.kind = "epoch" /\ ~EpochInDomain(r.days, r.sod, r.frac) THEN "skip"
   ELSE IF r.exc # "" THEN "exception"
+  \* known finding C01-negative-fraction: the fraction digits of a NEGATIVE epoch number are added forwards
+  ELSE IF r.kind = "epoch" /\ r.neg /\ r.out # Expected(r) /\ r.out = EpochInstant(r.fwd[1], r.fwd[2], r.fwd[3], r.zoff) THEN "known"
   ELSE IF r.out # Expected(r) THEN "wrong-datetime"
   ELSE IF r.off # 100000 THEN "unexpected-awareness"
   ELSE IF r.period # "day" THEN "wrong-period"
@@ -23,6 +25,7 @@ Check(r) ==
          ELSE IF v = "skip" THEN PrintT(<<"SKIP", r.tid, "abs">>) ELSE TRUE
     ELSE LET v == PropVerdict(r) IN
          IF v = "skip" THEN PrintT(<<"SKIP", r.tid, "prop">>)
+         ELSE IF v = "known" THEN PrintT(<<"KNOWN", r.tid, "C01-negative-fraction", Expected(r)>>)
          ELSE IF v # "ok" THEN PrintT(<<"REJECT", r.tid, "prop", v, Expected(r)>>)
          ELSE TRUE
 
